@@ -283,7 +283,7 @@ class UndirectedMultigraph : private LabeledUndirectedGraph<EdgeMultiplicity> {
 
         for (VertexIndex i = 0; i < size; ++i)
             for (auto &j : getOutNeighbours(i)) {
-                const auto &multiplicity = getEdgeLabel(i, j);
+                const size_t multiplicity = getEdgeLabel(i, j);
                 adjacencyMatrix[i][j] += i == j && countSelfLoopsTwice
                                              ? 2 * multiplicity
                                              : multiplicity;
@@ -297,7 +297,7 @@ class UndirectedMultigraph : private LabeledUndirectedGraph<EdgeMultiplicity> {
     getDegree(VertexIndex vertex, bool countSelfLoopsTwice = true) const {
         assertVertexInRange(vertex);
         size_t degree = 0;
-        EdgeMultiplicity multiplicity;
+        size_t multiplicity;
 
         for (auto &neighbour : getNeighbours(vertex)) {
             multiplicity = getEdgeMultiplicity(vertex, neighbour);
